@@ -243,6 +243,20 @@ pub fn run_wac(cwd: &Path, args: &[String], hash_seed: u64, timeout_s: u64) -> s
 /// `stdout_full`: the child's stdout is a device on which every write fails with ENOSPC
 /// (`/dev/full`) — the "full disk" fault for output that goes to stdout.
 pub fn run_wac_io(cwd: &Path, args: &[String], hash_seed: u64, timeout_s: u64, stdout_full: bool) -> std::io::Result<ChildResult> {
+    run_wac_plan(cwd, args, hash_seed, timeout_s, stdout_full, None)
+}
+
+/// Seam S: `io_plan` is a system-call fault plan for the LD_PRELOAD shim (see
+/// `shim/getrandom_shim.c`): `(items, report file)`; `root=` and `report=` are added here.
+/// The report file (outside the tree) receives one line per fault kind that actually fired.
+pub fn run_wac_plan(
+    cwd: &Path,
+    args: &[String],
+    hash_seed: u64,
+    timeout_s: u64,
+    stdout_full: bool,
+    io_plan: Option<(&str, &Path)>,
+) -> std::io::Result<ChildResult> {
     use std::os::unix::process::ExitStatusExt;
     let mut cmd = Command::new(wac_binary());
     cmd.args(args)
@@ -257,6 +271,15 @@ pub fn run_wac_io(cwd: &Path, args: &[String], hash_seed: u64, timeout_s: u64, s
         .env("VERIF_HASH_SEED", format!("{hash_seed}"))
         .stdin(Stdio::null())
         .stderr(Stdio::piped());
+    if let Some((items, report)) = io_plan {
+        let _ = std::fs::remove_file(report);
+        // the tree is addressed through its canonical path (what /proc/self/fd shows)
+        let root = std::fs::canonicalize(cwd).unwrap_or_else(|_| cwd.to_path_buf());
+        cmd.env(
+            "VERIF_IO_PLAN",
+            format!("root={}/,report={},{items}", root.display(), report.display()),
+        );
+    }
     if stdout_full {
         cmd.stdout(std::fs::OpenOptions::new().write(true).open("/dev/full")?);
     } else {
